@@ -166,6 +166,31 @@ impl AutosarModel {
 
         let mut parser = ArxmlParser::new(filename.clone(), buffer, strict);
         let root_element = parser.parse_arxml()?;
+        // Reject overlapping data before anything is modified: an Autosar path of the new data may only exist
+        // already if it refers to the same kind of element (the same identifiable can be present in multiple files)
+        {
+            let data = self.0.read();
+            let mut new_paths: FxHashMap<&str, ElementName> = FxHashMap::default();
+            for (key, value) in &parser.identifiables {
+                if let Some(new_element) = value.upgrade() {
+                    let new_name = new_element.element_name();
+                    let existing_name = data
+                        .identifiables
+                        .get(key)
+                        .and_then(WeakElement::upgrade)
+                        .map(|existing_element| existing_element.element_name())
+                        .or_else(|| new_paths.get(key.as_str()).copied());
+                    if existing_name.is_some_and(|name| name != new_name) {
+                        // referenced element is different on both sides
+                        return Err(AutosarDataError::OverlappingDataError {
+                            filename,
+                            path: new_element.xml_path(),
+                        });
+                    }
+                    new_paths.entry(key.as_str()).or_insert(new_name);
+                }
+            }
+        }
         let version = parser.get_fileversion();
         let arxml_file = ArxmlFileRaw {
             version,
@@ -192,18 +217,7 @@ impl AutosarModel {
         for (key, value) in parser.identifiables {
             // the same identifiables can be present in multiple files
             // in this case we only keep the first one
-            if let Some(existing_element) = data.identifiables.get(&key).and_then(WeakElement::upgrade) {
-                // present in both
-                if let Some(new_element) = value.upgrade() {
-                    if existing_element.element_name() != new_element.element_name() {
-                        // referenced element is different on both sides
-                        return Err(AutosarDataError::OverlappingDataError {
-                            filename,
-                            path: new_element.xml_path(),
-                        });
-                    }
-                }
-            } else {
+            if data.identifiables.get(&key).and_then(WeakElement::upgrade).is_none() {
                 data.identifiables.insert(key, value);
             }
         }
